@@ -141,7 +141,25 @@ Theorem extract_filtered_roundtrip :
     extract (map archived_member (tar_members_listing l)) = map extracted (reset_entries l).
 Proof. exact extract_filtered_roundtrip_proof. Qed.
 
+(* The write side holds on a wider domain: a link name may also sit on a fifo or a device (the
+   second name of such an inode, as the on-disk walker reports it).  WriteTar succeeds, emits one
+   member per entry in order with matching sizes, and the members meet the member-by-member
+   specification, in which such an entry must be a hard-link ('1') member without payload. *)
+Theorem members_are_listing_wide :
+  forall l, wf_listing_wb (reset_entries l) = true ->
+    write_tar_listing l = TarOk (tar_members_listing l)
+    /\ Forall2 member_of (reset_entries l) (tar_members_listing l)
+    /\ Forall (fun m : member => h_size (fst m) = blen (snd m)) (tar_members_listing l).
+Proof. exact members_are_listing_wide_proof. Qed.
+
+Theorem model_meets_member_spec_wide :
+  forall l, wf_listing_wb (reset_entries l) = true -> forallb mtime_in_range (reset_entries l) = true ->
+    members_match (reset_entries l) (map archived_member (tar_members_listing l)) = true.
+Proof. exact model_meets_member_spec_wide_proof. Qed.
+
 Print Assumptions members_are_view.
+Print Assumptions members_are_listing_wide.
+Print Assumptions model_meets_member_spec_wide.
 Print Assumptions members_are_listing.
 Print Assumptions extract_roundtrip.
 Print Assumptions extract_listing_roundtrip.
@@ -262,6 +280,20 @@ Example group_types_needed :
             (set_path (mkst 420 0 0 0 0 n_e 0 0 []) n_f, [])] in
   wf_links (map fst l) = true /\ wf_listing_b (reset_entries l) = true /\ group_types_agree l = false
   /\ links_resolve (map archived_member (tar_members_listing l)) = false.
+Proof. vm_compute. repeat split; reflexivity. Qed.
+
+(* link groups of non-regular inodes: a fifo and a character device with two names each.  Outside
+   the narrow (invertible) domain, inside the write domain; the second names are '1' members *)
+Definition special_links : list entry :=
+  [(set_path (mkst (ModeNamedPipe + 420) 0 0 0 0 [] 0 0 []) n_e, []);
+   (set_path (mkst (ModeNamedPipe + 420) 0 0 0 0 n_e 0 0 []) n_f, []);
+   (set_path (mkst (ModeDevice + ModeCharDevice + 384) 0 0 0 0 [] 1 3 []) n_g, []);
+   (set_path (mkst (ModeDevice + ModeCharDevice + 384) 0 0 0 0 n_g 1 3 []) [104], [])].
+Example special_link_groups :
+  wf_listing_b (reset_entries special_links) = false /\ wf_listing_wb (reset_entries special_links) = true
+  /\ map (fun m : member => (h_typeflag (fst m), h_linkname (fst m))) (tar_members_listing special_links)
+     = [(TypeFifo, []); (TypeLink, n_e); (TypeChar, []); (TypeLink, n_g)]
+  /\ members_match (reset_entries special_links) (map archived_member (tar_members_listing special_links)) = true.
 Proof. vm_compute. repeat split; reflexivity. Qed.
 
 (* the mtime hypothesis of model_meets_member_spec is needed: at the top of the int64 range
